@@ -34,7 +34,9 @@ TECHNIQUE = ("exhaustive walk of the configuration lattice (layout, estimator, s
              "around a payload recording; oracle on every point: the single-setup "
              "spectral matrix and the mean/transmissibility relations of the statement, line by line")
 LEVEL_TEXT = ("bounded-exhaustive over the stated lattice; the quantifier over all recordings is covered by one payload "
-              "recording per (seed, channel count, length); SD_est is the reference of this property (it is decided by C13)")
+              "recording per (seed, channel count, length); SD_est is the reference of this property (it is decided by C13); besides the overlaps "
+              "0, 1/4, 1/2, 3/4 the function route walks the decimal overlaps 0.3, 0.6, 0.7, 2/3 on EVERY segment length 40..100 (thorough 20..140), "
+              "where the number of overlapping samples is decided at a floor boundary")
 RULE = ("function route: one case = (channels, references, composition of roving channels into setups, estimator, nxseg, "
         "overlap, length, gain vector); class route: one case = (class, layout, placement of the references in every "
         "setup's channel list, estimator, overlap, gain vector); shared route: one case = (layout, placement, the setting that "
@@ -61,6 +63,12 @@ ASSUMPTIONS = [
 NXSEG_ODD_QUICK = (65, 127)             # odd segment lengths: the last line is below fs/2, nxseg*pov is not an integer
 NXSEG_ODD_THOROUGH = (65, 127, 255, 2047)
 NXSEG_EVEN_NP2 = (100,)                 # even, not a power of two
+
+# decimal overlaps on every segment length of a range: nxseg*pov sits at / next to a whole number of samples for many of these pairs
+# (k/nxseg*nxseg is not always k in floating point), so the number of overlapping samples is decided at a floor boundary
+DEC_POVS = (0.3, 0.6, 0.7, 2 / 3)
+DEC_NXSEG_QUICK = tuple(range(40, 101))
+DEC_NXSEG_THOROUGH = tuple(range(20, 141))
 
 TOL = 1e-8
 COND_MAX = 1e6
@@ -367,6 +375,11 @@ def func_item(item):
             base[stagger] = (np.asarray(Sy), ex)
         if ok and stagger:
             t.outcomes[f"general-relations-hold-on-different-records:{method}"] += 1
+        if ok and pov in DEC_POVS:
+            k_ov = int(nxseg * pov)
+            t.outcomes[f"decimal-overlap:{pov:.3g}:holds:{method}"] += 1
+            if int((k_ov / nxseg) * nxseg) != k_ov:
+                t.outcomes["decimal-overlap:at-a-floor-boundary(k/nxseg*nxseg<k):holds"] += 1
         if idx % 211 == 0 and gi in (0, 5, len(variants) - 1):
             t.sample({"part": "func", "layout": {"channels": n, "references": k, "roving_per_setup": list(comp)}, "method": method,
                       "nxseg": nxseg, "pov": pov, "segments": nseg, "gains": list(gains), "setups_from_different_stretches": stagger,
@@ -660,6 +673,15 @@ def func_lattice(thorough):
                         out.append((len(out), layout, method, nxseg, pov, nseg, walk))
     for c in np2:
         out.append((len(out),) + c)
+    # decimal overlaps x every segment length of a range (periodogram estimator; the correlogram ignores the overlap: thorough only),
+    # on the first layout with one and the first with two references, 4-segment records, two gain vectors
+    lays = layouts(thorough)
+    dec_lay = [next(l for l in lays if l[1] == 1), next(l for l in lays if l[1] == 2)]
+    for layout in dec_lay:
+        for method in (("per", "cor") if thorough else ("per",)):
+            for pov in DEC_POVS:
+                for nxseg in (DEC_NXSEG_THOROUGH if thorough else DEC_NXSEG_QUICK):
+                    out.append((len(out), layout, method, nxseg, pov, 4, "two"))
     return out
 
 
@@ -747,16 +769,22 @@ def shared_lattice(thorough):
 
 def explore(ctx):
     F = func_lattice(ctx.thorough)
+    Fm = [c for c in F if c[4] not in DEC_POVS]      # the main lattice (summaries below); decimal overlaps are summarised apart
     C = class_lattice(ctx.thorough)
     H = shared_lattice(ctx.thorough)
     lay = layouts(ctx.thorough)
     ctx.bounds = {
         "layouts": {"count": len(lay), "channels": sorted({l[0] for l in lay}), "references": sorted({l[1] for l in lay}),
                     "setups": sorted({len(l[2]) for l in lay}), "what": "every composition of the roving channels into setups of >= 1 channel"},
-        "function_route": {"items": len(F), "methods": ["per", "cor"], "nxseg": sorted({c[3] for c in F}), "pov": list(POVS),
-                           "nxseg_x_length": sorted({(c[3], c[5]) for c in F}), "gains": list(GAINS),
-                           "nxseg_odd": sorted({c[3] for c in F if c[3] % 2}), "nxseg_even_not_power_of_two": sorted({c[3] for c in F if not c[3] % 2 and c[3] & (c[3] - 1)}),
-                           "items_by_nxseg": {str(v): sum(1 for c in F if c[3] == v) for v in sorted({c[3] for c in F})},
+        "function_route": {"items": len(F), "methods": ["per", "cor"], "nxseg": sorted({c[3] for c in Fm}), "pov": list(POVS),
+                           "nxseg_x_length": sorted({(c[3], c[5]) for c in Fm}), "gains": list(GAINS),
+                           "nxseg_odd": sorted({c[3] for c in Fm if c[3] % 2}), "nxseg_even_not_power_of_two": sorted({c[3] for c in Fm if not c[3] % 2 and c[3] & (c[3] - 1)}),
+                           "items_by_nxseg": {str(v): sum(1 for c in Fm if c[3] == v) for v in sorted({c[3] for c in Fm})},
+                           "decimal_overlaps": {"pov": [round(p, 6) for p in DEC_POVS], "nxseg": f"every integer {min(c[3] for c in F if c[4] in DEC_POVS)}..{max(c[3] for c in F if c[4] in DEC_POVS)}",
+                                                "items": sum(1 for c in F if c[4] in DEC_POVS), "methods": sorted({c[2] for c in F if c[4] in DEC_POVS}),
+                                                "layouts": "the first layout with one and the first with two references", "record": "4 segments", "gains": "all ones + one mixed vector",
+                                                "why": "for many of these pairs nxseg*pov lies at / next to a whole number of samples (k/nxseg*nxseg < k in floating point): "
+                                                       "the number of overlapping samples is decided at a floor boundary"},
                            "note": func_lattice.__doc__,
                            "different_records": "items with the full/reduced gain walk (quick: nxseg 64 only) are repeated with the setups cut from consecutive stretches of a "
                                                 "longer recording (all ones + one mixed gain vector): relations (ii) and (iii) only",
@@ -789,6 +817,7 @@ def explore(ctx):
     for c in H:
         records(ctx.seed, c[1][0], c[5], len(c[1][2]), False)
     ctx.pmap(shared_item, [(ctx.seed, ctx.thorough, c) for c in H], chunksize=2)
+    ctx.require(*[f"decimal-overlap:{p:.3g}:holds:per" for p in DEC_POVS], "decimal-overlap:at-a-floor-boundary(k/nxseg*nxseg<k):holds")
     ctx.require("single-setup-equal:per", "single-setup-equal:cor", "relations-hold:per", "relations-hold:cor",
                 "gain-only-changes-mean-reference-block:per", "gain-only-changes-mean-reference-block:cor",
                 "class-ok:FDD_MS", "class-ok:EFDD_MS", "class-ok:pLSCF_MS",
